@@ -121,12 +121,26 @@ def main(chk, args):
             if shard:
                 jobs.append((root, dict(api=api, module=MODULE, service='Pg', service_snake='pg', pkg=PKG,
                                         methods=KINDS, cases=shard, modes=['sync', 'async'])))
+        # the alternative (Ads) template set has its own pager template (sync client only): a share of the histories, each with
+        # and without explicit call options, goes through it as well
+        awork = os.path.join(work, 'ads-opts')
+        os.makedirs(awork, exist_ok=True)
+        areq, ares = gen.generate_api(api, dict(transport=['grpc'], snippets=False, templates='ads-templates', old_naming=True), awork)
+        aroot = gen.materialise(ares, os.path.join(work, 'out-ads'))
+        share = [c for c in allc if c['idx'] >= 0][::(7 if quick else 2)]
+        ashards = 4
+        for s_ in range(ashards):
+            shard = [dict(c, id='ads:' + c['id']) for c in share[s_::ashards]]
+            if shard:
+                jobs.append((aroot, dict(api=api, module=PKG, service='Pg', service_snake='pg', pkg=PKG,
+                                         methods=KINDS, cases=shard, modes=['sync'])))
         traces = []
         with ProcessPoolExecutor(min(nshards, 14)) as ex:
             for ok, out, err in ex.map(_drive, jobs):
                 if not ok:
                     raise core.MachineryError('pager driver failed:\n' + err)
                 traces.extend(out['traces'])
+        chk.extra['ads_histories'] = len(share)
     # 3. spec -> code comparison
     for tr in traces:
         if tr['id'].startswith('x'):        # random history beyond the bound: no TLC prediction, judged by the trace spec below
@@ -134,9 +148,10 @@ def main(chk, args):
             if tr.get('error'):
                 chk.violation('random:' + tr['kind'] + '/' + tr['mode'], f"raised {tr['error']}", dict(trace=tr))
             continue
-        c = cases[int(tr['id'].split(':')[0])]
+        ads = tr['id'].startswith('ads:')
+        c = cases[int(tr['id'][4 if ads else 0:].split(':')[0])]
         again = '/again' if tr['id'].endswith(':again') else ''
-        key = f"{tr['kind']}/{tr['mode']}{again}/" + ''.join(f"{p['n']}{'+' if p['more'] else '.'}" for p in tr['history'])
+        key = ('ads:' if ads else '') + f"{tr['kind']}/{tr['mode']}{again}/" + ''.join(f"{p['n']}{'+' if p['more'] else '.'}" for p in tr['history'])
         chk.case(key, nontrivial=len(c['tokens']) > 1 or len(c['yielded']) > 0)
         diffs = ([f"raised {tr['error']}"] if tr.get('error') else []) + predicted_ok(c, tr)
         if diffs:
@@ -150,7 +165,7 @@ def main(chk, args):
     chk.traces += accepted
     for idx, t, info in rejected:
         tr = traces[idx]
-        key = f"{tr['kind']}/{tr['mode']}/" + ''.join(f"{p['n']}{'+' if p['more'] else '.'}" for p in tr['history'])
+        key = ('ads:' if tr['id'].startswith('ads:') else '') + f"{tr['kind']}/{tr['mode']}/" + ''.join(f"{p['n']}{'+' if p['more'] else '.'}" for p in tr['history'])
         chk.violation(f'trace:{key}', f'PagerTrace rejected the recorded behaviour: {info}', dict(trace=tr, info=info))
     chk.rule = ('cases = server page histories enumerated by TLC (Pager.emit.*.cfg: pages 1..N, sizes 0..M, token flags; '
                 'history may continue after an empty token) x item kind {msg, scalar, map} x {sync, asyncio}; '
